@@ -48,6 +48,14 @@ class Ctx:
             shutil.copy(os.path.join(REPO, "go.sum"), os.path.join(hdir, "go.sum"))
             gm = open(os.path.join(hdir, "go.mod")).read().replace("=> /repo", "=> " + REPO)
             open(os.path.join(hdir, "go.mod"), "w").write(gm)
+            # an engine may restrict the binary to its own command file(s) so that a driver of another
+            # engine that does not compile (work in progress) cannot break it: ctx.vh_keep = ["conn.go"]
+            keep = getattr(self, "vh_keep", None)
+            if keep:
+                cdir = os.path.join(hdir, "cmd", "vh")
+                for f in os.listdir(cdir):
+                    if f.endswith(".go") and f != "main.go" and f not in keep:
+                        os.remove(os.path.join(cdir, f))
         out = os.path.join(self.work, key)
         cmd = ["go", "build", "-tags", "verif"] + (["-race"] if race else []) + ["-o", out, "./cmd/vh"]
         p = subprocess.run(cmd, cwd=hdir, env=GOENV, capture_output=True, text=True)
